@@ -553,7 +553,7 @@ func runStore(r *lib.Run, kind string) {
 	w := &world{r: r, kind: kind}
 	w.open()
 	variants := r.Pick(1, 2) // thorough: every subset twice with different expiry assignments
-	per := r.Pick(64, 400) // requests sampled per directory (of spaceSize()), a different sample per store
+	per := r.Pick(96, 400) // requests sampled per directory (of spaceSize()), a different sample per store
 	total := spaceSize()
 	for v := 0; v < variants; v++ {
 		for idx := 0; idx < 256; idx++ {
@@ -637,5 +637,5 @@ func main() {
 			r.Inconclusive("store " + kind + ": no requests / paginations / expired-entry directories / gRPC requests executed")
 		}
 	}
-	r.Finish(r.Pick(5000, 20000))
+	r.Finish(r.Pick(8000, 20000))
 }
